@@ -31,8 +31,15 @@ def iso_case(rng, fam, g, doc, docs, pos, node):
     start, end = pos + 1, pos + 1 + node.content.size
     ps = [p for p in S.boundary_positions(doc) if start <= p <= end]
     a, c = sorted((rng.choice(ps), rng.choice(ps)))
-    if rng.random() < 0.25:
+    r0 = rng.random()
+    if r0 < 0.2:
         a, c = start, end        # the entire content
+    elif r0 < 0.45:
+        a = start                # from the very start of the isolating node's content
+        inner = [p for p in ps if p > start]
+        c = rng.choice(inner) if inner else start
+    elif r0 < 0.6:
+        c = end
     tr = Transform(doc)
     op = rng.choice(["replace", "delete", "replace_range", "delete_range", "replace_with", "insert",
                      "replace_range_with", "lift", "split"])
@@ -57,8 +64,12 @@ def iso_case(rng, fam, g, doc, docs, pos, node):
             t.replace_range_with(a, c, rng.choice(pool))
         elif op == "lift":
             rg = doc.resolve(a).block_range(doc.resolve(c))
-            tgt = rg and structure.lift_target(rg)
-            if rg is None or tgt is None:
+            # the block range must lie inside the isolating node (a range that IS the node moves it as a whole,
+            # which is not an edit inside it)
+            if rg is None or rg.depth < doc.resolve(start).depth:
+                raise TransformError("range is not inside the isolating node")
+            tgt = structure.lift_target(rg)
+            if tgt is None:
                 raise TransformError("no lift")
             t.lift(rg, tgt)
         elif op == "split":
@@ -83,7 +94,7 @@ def generate(rng: random.Random, tier: str):
         with_iso = [(d, iso_nodes(d)) for d in docs]
         with_iso = [(d, l) for d, l in with_iso if l]
         for doc, l in with_iso:
-            for _ in range(12 if quick else 40):
+            for _ in range(20 if quick else 60):
                 pos, node = rng.choice(l)
                 yield iso_case(rng, fam, g, doc, docs, pos, node)
 
